@@ -108,3 +108,9 @@ package fetcher
 //@ func (*indexFetcher).determineFieldFilterConditions -> (r, err)
 //@   assert before call#1 TraverseProperties: len(arg2) == 2 && arg2[0] == "_not" && arg2[1] == "_or" && arg0 == f.indexFilter.Conditions
 //@   tags C07
+//@
+//@ // ===== C07: conditions are copied out of the document filter for the index only when the filter has no _or
+//@ // (copying single fields out of an _or loses its other branches)
+//@ func newIndexFetcher -> (r, err)
+//@   assert before call#1 CopyField: !res(containsOrOperator, 1, 0) && callarg(containsOrOperator, 1, 0) == docFilter && arg0 == docFilter
+//@   tags C07
